@@ -165,6 +165,23 @@ func (rp *rawPeer) data(carrier, sid string, seq int, b64 string) string {
 	return id
 }
 
+// dataNoSID sends a data packet that names no session at all (no sid
+// attribute; with emptySID an empty one).
+func (rp *rawPeer) dataNoSID(carrier string, seq int, b64 string, emptySID bool) string {
+	id := rp.id("d")
+	sid := ""
+	if emptySID {
+		sid = " sid=''"
+	}
+	name := "iq type='set'"
+	end := "iq"
+	if carrier != "iq" {
+		name, end = "message", "message"
+	}
+	rp.send(fmt.Sprintf(`<%s id='%s' from='%s' to='%s'><data xmlns='%s' seq='%d'%s>%s</data></%s>`, name, id, peerAddr, libAddr, nsIBB, seq, sid, b64, end))
+	return id
+}
+
 // ---------------------------------------------------------------------------
 // raw-recv: the raw speaker sends, the library receives
 
@@ -270,6 +287,8 @@ type rawRecvCase struct {
 
 var wantCond = map[string]string{
 	"unknown-sid":     "item-not-found",
+	"no-sid":          "item-not-found",
+	"empty-sid":       "item-not-found",
 	"closed-sid-peer": "item-not-found",
 	"closed-sid-lib":  "item-not-found",
 	"bad-seq":         "unexpected-request",
@@ -280,6 +299,8 @@ var wantCond = map[string]string{
 
 var counterFor = map[string]string{
 	"unknown-sid":     "inject_unknown_sid",
+	"no-sid":          "inject_no_sid",
+	"empty-sid":       "inject_no_sid",
 	"closed-sid-peer": "inject_closed_sid",
 	"closed-sid-lib":  "inject_closed_sid",
 	"bad-seq":         "inject_bad_seq",
@@ -302,7 +323,9 @@ func genRawRecv(r *rand.Rand) *rawRecvCase {
 	rc.Block = []int{16, 64, 256, 4096}[r.Intn(4)]
 	rc.End = []string{"peer-close", "lib-close"}[r.Intn(2)]
 	rc.NoListener = r.Intn(4) == 0
-	foreign := []string{"unknown-sid", "closed-sid-peer", "closed-sid-lib"}
+	// (no-sid / empty-sid: a packet that names no session, numbered like the
+	// live stream's next one)
+	foreign := []string{"unknown-sid", "closed-sid-peer", "closed-sid-lib", "no-sid", "empty-sid"}
 	live := []string{"bad-seq", "bad-b64-char", "bad-b64-trunc", "oversize"}
 	final := ""
 	if r.Intn(5) != 0 {
@@ -519,6 +542,8 @@ func execRawRecv(c *core.Case, rc *rawRecvCase) {
 			valid = append(valid, chunk...)
 		case "unknown-sid":
 			id = rp.data(carrier, "never-opened", st.Seq, b64)
+		case "no-sid", "empty-sid":
+			id = rp.dataNoSID(carrier, seq, b64, st.Op == "empty-sid")
 		case "closed-sid-peer":
 			id = rp.data(carrier, "dead-by-peer", st.Seq, b64)
 		case "closed-sid-lib":
